@@ -18,7 +18,7 @@ MANIFEST = dict(
         "(every formulation takes the binary path on two-class data), ova_is_binary_per_class (OVA never reaches the multi-class solvers), every other formulation uses one of the four table families; "
         "(4) QpBoxLinear coordinate step (Model/McLinear.lean): linear_w_inv (w = sum alpha_i y_i x_i) and linear_box_inv along EVERY schedule, linear_step_gain_nonneg_partial; "
         "(5) configuration invariance in exact arithmetic: mc_kkt_eps_near_optimal / two_stopped_configurations_close (any two feasible eps-KKT points of a concave box QP have "
-        "objectives within eps*N*C), stopped_state_near_optimal (link to the model through mc_grad_inv), generated_Q_psd (Q = M(x)K is PSD for every family when K is a Gram matrix of explicit "
+        "objectives within eps*N*C), stopped_state_near_optimal (link to the model through mc_grad_inv), mc_objective_recomputed (functionValue() is the dual objective), generated_Q_psd (Q = M(x)K is PSD for every family when K is a Gram matrix of explicit "
         "features: Kronecker step via M_is_gram_of_nu), perm_examples_equivariant (reordering the examples renumbers the same dual). Tie to the C++ on every run: entry-wise table dumps c=2..8 (bit patterns and exact "
         "rationals); adversarial op sequences on the real QpMcBoxDecomp (protected members via a subclass, synthetic PSD integer/dyadic kernel matrices) compared line by line with the "
         "Float instance of the model bit for bit and, whenever FE_INEXACT stayed clear, with the Rat instance exactly; one-epoch sweeps of the real QpBoxLinear along its observed "
@@ -32,7 +32,7 @@ MANIFEST = dict(
        "(hypothesis |x_i|^2+reg>0; the zero-vector case differs between IEEE inf and Rat division). Configuration invariance is a theorem about exact arithmetic; PSD of Q is proved for kernel matrices given as Gram matrices of explicit features "
        "(linear/polynomial kernels), a hypothesis otherwise; that the real solver reaches the accuracy, and all floating-point effects, are exercised by the correspondence only; "
        "the decision-value tolerance 2*sqrt(2*eps*n*P*C)*sqrt(k(x,x)) is derived on paper from the proved objective bound. uniform_sweep_visits_all, linear_stop_weak and primal_dual_gap of the design are not proved; perm_examples_equivariant is proved at the level of Q and lin "
-       "(not composed with the optimality bound into one statement). For the binary machine with offset a constant shift of the decision values between configurations is tolerated "
+       "(not composed with the optimality bound into one statement). For the binary machine (and each one-versus-all machine) with offset a constant shift of the decision values between configurations is tolerated "
        "(the optimal offset is an interval when no support vector is free; C07 owns bias_in_kkt_interval). The translator is trusted to render the C++ subset faithfully (mitigated by the dumps and by comparing the generated decision logic with the path "
        "the real trainer takes). Findings: F-C16-1 (label(i) after shrinking; patch proposed), F-C16-4 (QpMcSimplexDecomp::selectWorkingSet stalls; patch proposed), "
        "F-C16-2 (multi-class offset solver is trajectory dependent; no validated patch) — see findings_proposed/C16.md; on a tree without the patches the check reports them as violations by design.",
@@ -443,13 +443,16 @@ def check_train_group(ctx, exe, ds, F, bias, C, eps, kern, cfgs, disp=None):
         # binary machine with offset: when no support vector is free the optimal offset is an interval, so two exact
         # optimisers may differ by a constant; the common shift over all evaluation points is removed before comparing
         # (that each offset lies in its KKT interval is C07's bias_in_kkt_interval, not checked here)
-        shift = 0.0
-        if bias and outputs == 1:
-            dd = sorted(a - b for a, b in zip(b0["dec"] + b0["tdec"], rr["dec"] + rr["tdec"]))
-            shift = dd[len(dd) // 2]
-            if abs(shift) > 1e-6: ctx.count("binary_offset_shift_removed")
+        shift = [0.0] * outputs
+        if bias and (outputs == 1 or F == "OVA"):
+            # (one-versus-all: one binary machine, hence one offset, per output)
+            allA, allB = b0["dec"] + b0["tdec"], rr["dec"] + rr["tdec"]
+            for c in range(outputs):
+                dd = sorted(a - b for a, b in zip(allA[c::outputs], allB[c::outputs]))
+                shift[c] = dd[len(dd) // 2]
+                if abs(shift[c]) > 1e-6: ctx.count("binary_offset_shift_removed")
         for name, pts, cnt in (("dec", ds["probes"], ds["m"]), ("tdec", ds["xs"], n)):
-            va, vb = b0[name], [x + shift for x in rr[name]]
+            va, vb = b0[name], [x + shift[t % outputs] for t, x in enumerate(rr[name])]
             if F in CENTRED and k > 2 and outputs > 1:
                 va, vb = centre(va, outputs), centre(vb, outputs)
             for j in range(cnt):
